@@ -356,7 +356,9 @@ def item_price(item, cur, c, rates):
             return parse(ap["value"]).match(A(0, SUBUNITS[cur]))
     for r in rates:
         if r["from"] == item["currency"] and r["to"] == cur:
-            return price.mul(parse(r["amount"])).rescale(SUBUNITS[cur])
+            # ExchangeRate.Convert (as repaired): the amount is held with at least the destination currency's decimals
+            # before it is multiplied (Multiply rounds to its receiver's decimals), then expressed in that currency
+            return price.match(A(0, SUBUNITS[cur])).mul(parse(r["amount"])).rescale(SUBUNITS[cur])
     return None
 
 
@@ -560,7 +562,9 @@ def pcalc(doc):
     payable = twt
     rounding = (doc.get("totals") or {}).get("rounding")
     if rounding is not None:
-        payable = twt.add(parse(rounding))
+        # a supplied rounding is presented with the currency's decimals and that figure is what payable adds
+        rounding = parse(rounding).rescale(c)
+        payable = twt.add(rounding)
     pay = doc.get("payment") or {}
     advances = due = None
     adv_rows = []
@@ -599,7 +603,7 @@ def pcalc(doc):
     return [b"ok", [[present_line(l) for l in lines], R(tsum), Ro(discount), Ro(charge), Ro(included), R(total), R(tax),
                     R(twt), R(payable), Ro(advances), Ro(due), [pres(d, a).t() for d, a in zip(drows, dd)],
                     [pres(d, a).t() for d, a in zip(crows, cc_)], [a.t() for a in adv_rows], [a.t() for a in dues],
-                    [ecat(ct) for ct in cats], taxsum_r.t() if cats else []]]
+                    [ecat(ct) for ct in cats], taxsum_r.t() if cats else [], [] if rounding is None else rounding.t()]]
 
 
 def present_line(l):
@@ -814,8 +818,17 @@ class Gen:
         if ch:
             doc["charges"] = ch
         if rng.random() < 0.12:
-            # an externally supplied rounding adjustment (EN 16931 BT-114) at the currency's precision
-            doc["totals"] = {"rounding": fmt(A(rng.choice([1, -1, 2, 5, -3]), c))}
+            # an externally supplied rounding adjustment (EN 16931 BT-114): at the currency's precision, with MORE
+            # decimals than the currency (ties included: 0.005 is presented 0.01 and that is what payable adds -
+            # findings/C03.json C03-supplied-rounding-extra-decimals), or with fewer ("1" is presented "1.00")
+            k = rng.random()
+            if k < 0.45:
+                ra = A(rng.choice([1, -1, 2, 5, -3]), c)
+            elif k < 0.9:
+                ra = A(rng.choice([5, -5, 4, -4, 15, -25, 149, 995, -995, 1, 50, -49]), c + rng.choice([1, 1, 2]))
+            else:
+                ra = A(rng.choice([1, -1, 2]), max(c - rng.choice([1, 2]), 0))
+            doc["totals"] = {"rounding": fmt(ra)}
         if rng.random() < 0.2:
             dd_rows = []
             for i in range(rng.randint(1, 3)):
